@@ -155,9 +155,10 @@ impl Property for C12 {
             0u8..14,
             base,
             prop_oneof![
-                1 => Just(vec![]),
-                6 => prop::collection::vec(any::<u8>(), 1..300),
-                2 => prop::collection::vec(prop::sample::select(vec![0u8, 0xFF, 7]), 1..1500),
+                3 => Just(vec![]),
+                24 => prop::collection::vec(any::<u8>(), 1..300),
+                8 => prop::collection::vec(prop::sample::select(vec![0u8, 0xFF, 7]), 1..1500),
+                1 => prop::collection::vec(any::<u8>(), 64_000..70_000),
             ],
             prop_oneof![
                 2 => Just(vec![usize::MAX]),
@@ -178,9 +179,9 @@ impl Property for C12 {
     fn concretize(&self, a: &Abs) -> Case {
         // pick the entry point; decoders take the generated stream of their format
         let (entry, data) = match (&a.base, a.entry_sel) {
-            (_, 0) => (Entry::LzmaCompress(0), a.plain.clone()),
-            (_, 1) => (Entry::LzmaCompress(1), a.plain.clone()),
-            (_, 2) => (Entry::LzmaCompress(2), a.plain.clone()),
+            (_, 0) => (Entry::LzmaCompress(0), a.plain[..a.plain.len().min(2500)].to_vec()),
+            (_, 1) => (Entry::LzmaCompress(1), a.plain[..a.plain.len().min(2500)].to_vec()),
+            (_, 2) => (Entry::LzmaCompress(2), a.plain[..a.plain.len().min(2500)].to_vec()),
             (_, 3) => (Entry::Lzma2Compress, a.plain.clone()),
             (_, 4) | (_, 5) => (Entry::XzCompress, a.plain.clone()),
             (AbsBase::Lzma(_), s) if s % 2 == 0 => (Entry::Stream, build_base(&a.base)),
@@ -253,10 +254,30 @@ impl Property for C12 {
         if let Some(f) = &c.focus {
             faults.push(f.clone());
         } else {
-            for k in 0..w {
+            // all positions up to 3000 calls; beyond that the first 1000, the last
+            // 1000 and 1000 evenly spread ones
+            let big = c.data.len() > 10_000;
+            let positions = |n: usize| -> Vec<usize> {
+                if big && n > 300 {
+                    let mut v: Vec<usize> = (0..100).collect();
+                    v.extend((0..100).map(|i| 100 + i * (n - 200) / 100));
+                    v.extend(n - 100..n);
+                    v.dedup();
+                    v
+                } else if n <= 3000 {
+                    (0..n).collect()
+                } else {
+                    let mut v: Vec<usize> = (0..1000).collect();
+                    v.extend((0..1000).map(|i| 1000 + i * (n - 2000) / 1000));
+                    v.extend(n - 1000..n);
+                    v.dedup();
+                    v
+                }
+            };
+            for k in positions(w) {
                 faults.push(Fault::SinkAt(k));
             }
-            for k in 0..r {
+            for k in positions(r) {
                 faults.push(Fault::SourceAt { k, sticky: false });
                 if k % 3 == 0 {
                     faults.push(Fault::SourceAt { k, sticky: true });
